@@ -74,7 +74,7 @@ def parseArg (t : String) : Option Arg :=
     else if k == "al" then some (.s v)                                  -- a comma-joined list of addresses: a string argument
     else if k == "u" then some (match v.toNat? with | some n => .u n | none => .badnum)
     else if k == "b" then some (.b (v == "1"))
-    else if k == "x" || k == "ibtp" || k == "addrs" then some .opq      -- bytes arguments: opaque to the model
+    else if k == "x" || k == "ibtp" || k == "ibtpc" || k == "addrs" then some .opq      -- bytes arguments: opaque to the model
     else if k == "f" || k == "raw" then some .badnum                    -- float / raw-typed arguments fit no modelled signature
     else if k == "i" then some (match parseInt? v with | some n => .i n | none => .badnum)
     else none
